@@ -157,7 +157,7 @@ def run(ctx):
                     if lab is not None and lab.case is not None and lab.frame.owner_id == 0 and n.block == bid:
                         case_targets[str(lab.case)] = m
             invs = [n for n in ig.ev_nodes() if n.id in live and is_task_invoke(n) and n.frame.owner_id == 0]
-            rets = [n for n in ig.ev_nodes() if n.id in live and n.ev["e"] == "ret" and n.frame.owner_id == 0]
+            rets = [n for n in ig.ev_nodes() if n.id in live and n.ev["e"] == "ret" and n.frame.id == 0]
             ft = case_targets.get(vals.get("FUNCTION"))
             st = case_targets.get(vals.get("STOP"))
             ok = ft is not None and bool(invs)
